@@ -188,9 +188,50 @@ def build(kind, name, seed, base):
     for k, f in DIRECTED:
         if k == kind:
             return f(name, seed, base)
-    if kind == "random_sym":
+    if kind in ("random_sym", "random_sym_stale"):
         return X.gen_random(name, seed, base, symlinks=True)
     return X.gen_random(name, seed, base)
+
+
+def make_stale(s, groups, seed):
+    """Between `group` and the dedupe command some reported regular files stop being replicas of their group:
+      swap   - another (older) file of a DIFFERENT length is moved into place, its old mtime preserved (`mv old dup`, `cp -p`,
+               `rsync -t`): only the length guard of partition() can notice;
+      trunc  - truncated / extended in place with the mtime set back (hard links of the inode change with it);
+      fresh  - rewritten by an ordinary write (same or other length) stamped after the report: the whole group is skipped.
+    The model sees the changed tree (inventory is taken afterwards); the oracle's clause 1 protects the new content."""
+    rng = core.SplitMix64(seed ^ 0x57A1E)
+    cands = sorted({p for g in groups for p in g["files"] if os.path.isfile(p) and not os.path.islink(p)})
+    done = []
+    if not cands:
+        return done
+    for p in rng.shuffle(cands)[:1 + rng.below(2)]:
+        st = os.lstat(p)
+        how = rng.choice(["swap", "swap", "trunc", "fresh"])
+        n = st.st_size
+        newlen = rng.choice([max(0, n - 1), n + 1, n // 2, n + 17, 0]) if how != "fresh" else rng.choice([n, n + 3])
+        if how != "fresh" and newlen == n:
+            newlen = n + 1
+        data = treegen.content(seed + 7919 * (len(done) + 1), newlen)
+        if how == "swap":
+            tmp = p + b".swp~"
+            with open(tmp, "wb") as f:
+                f.write(data)
+            os.replace(tmp, p)
+            os.utime(p, ns=(st.st_atime_ns, st.st_mtime_ns))
+        elif how == "trunc":
+            with open(p, "r+b") as f:
+                f.truncate(0)
+                f.write(data)
+            os.utime(p, ns=(st.st_atime_ns, st.st_mtime_ns))
+        else:
+            with open(p, "wb") as f:
+                f.write(data)
+            import time as _t
+            t = _t.time_ns() + 2 * 10**9
+            os.utime(p, ns=(t, t))
+        done.append((how, p.decode("utf-8", "replace"), n, newlen))
+    return done
 
 
 # ------------------------------------------------------------------------------------------------ one case
@@ -210,6 +251,9 @@ def run_case(model, scratch, kind, idx, seed):
         out["viol"].append(({"kind": "group_failed"}, str(e), payload, False))
         return out
     payload["report"] = s.report.decode("utf-8", "replace")[:3000]
+    stale = make_stale(s, groups, seed) if kind.endswith("_stale") else []
+    if stale:
+        payload["made_stale_after_group"] = stale
     inv0 = X.inventory(s.base)
     tree_aux = X.model_tree(s, inv0) if model else None
     sym_in_report = any(inv0.get(p, ("?",))[0] == "l" for g in groups for p in g["files"])
@@ -231,7 +275,8 @@ def run_case(model, scratch, kind, idx, seed):
                     ("priority", ",".join(s.sem["prio"]) or "-"),
                     ("patterns", "+".join(k for k in ("keep_name", "keep_path", "name", "path") if s.sem[k]) or "-"),
                     ("cli_isolate", s.sem.get("iso_kind", "directed" if s.sem["iso"] else "-")), ("cli_match_links", int(s.sem["mlinks"])),
-                    ("lock", "no-lock" if s.no_lock else "lock"), ("kind", kind if kind.startswith("random") else "directed")]
+                    ("lock", "no-lock" if s.no_lock else "lock"), ("kind", kind if kind.startswith("random") else "directed"),
+                    ("stale_members", "+".join(sorted(h for h, _, _, _ in stale)) or "-")]
     if s.op == "move":
         out["bump"].append(("move_dir", ("inside" if s.move_dir.startswith(s.treedir) else "outside") + ("+other_mount" if s.fake_mount else "")))
     # (b) the independent oracle
@@ -359,7 +404,9 @@ def run(ctx):
     ctx.rule = ("case = (generated tree, `group` options recorded in the header, report format, dedupe operation, its options); "
                 "non-trivial = the report has groups and the run changed at least one file; distinct = distinct scenario seed. "
                 "Directed cases (K2 x3 ops, K7, retained hard-link set with n=2, move onto a parked copy) run first, then random trees "
-                "(1/4 with symlinks reported by -S, 1/3 with shell-hostile / non-UTF-8 names)")
+                "(1/4 with symlinks reported by -S, 1/3 with shell-hostile / non-UTF-8 names; 1/5 with members made STALE between "
+                "`group` and the dedupe command: another file of a different length moved into place with its old mtime, in-place "
+                "truncation with the mtime set back, fresh rewrite)")
     ctx.assumptions = ["the sandbox file system refuses FICLONE (EOPNOTSUPP): `dedupe` must leave every file untouched, which is still a C02 case",
                        "one device: the per-device split of link/dedupe is exercised at API level by engine D only",
                        "temp-file names do not collide with existing names (24 random alphanumerics)"]
@@ -381,7 +428,8 @@ def run(ctx):
             cases.append((k, i, ctx.rng.next()))
         n = ctx.pick(220, 4000)
         for i in range(n):
-            cases.append(("random_sym" if i % 9 == 0 else "random", i, ctx.rng.next()))
+            k = "random_sym" if i % 9 == 0 else "random"
+            cases.append((k + "_stale" if i % 5 == 3 else k, i, ctx.rng.next()))
     fault_cases = []
     if not ctx.replay:
         fault_cases = [("move_fault", i, ctx.rng.next()) for i in range(ctx.pick(4, 40))]
